@@ -118,6 +118,11 @@ def _get_ctc_info(ast_node: Node) -> dict[str, Any]:
     if ast_node.is_term():
         ctc_info['type'] = FeatureIDEReader.TAG_VAR
         ctc_info['operands'] = [safename(str(ast_node.data))]
+    elif ast_node.data == ASTOperation.EXCLUDES:
+        # FeatureIDE has no excludes element: A excludes B is written as A implies not B
+        ctc_info['type'] = FeatureIDEReader.TAG_IMP
+        negated_right = {'type': FeatureIDEReader.TAG_NOT, 'operands': [_get_ctc_info(ast_node.right)]}
+        ctc_info['operands'] = [_get_ctc_info(ast_node.left), negated_right]
     else:
         ctc_info['type'] = FeatureIDEWriter.CTC_TYPES[ast_node.data]
         operands = []
